@@ -1,20 +1,32 @@
 """C05 - application failures are contained and never yield a falsely complete response.
 
-A base application program (HTTP: recv, recv, start, chunk, chunk, end; WebSocket: connect, accept,
-send, recv, close) gets a failure injected at *every* program point, crossed with the failure kind
-(raise / return early / raise CancelledError on asyncio), the response framing (content-length /
-chunked or DATA frames) and the context: HTTP/1.1 keep-alive followed by a second request (later
-segment or pipelined), two concurrent HTTP/2 streams (the sibling is healthy and gated so that it
-overlaps), WebSocket over both carriers, plus a second connection on the same worker afterwards.
-Explorer A places the remaining client bytes / sibling gate releases around the crash.
+A base application program (HTTP: recv, recv, start, chunk, chunk, end; WebSocket session: connect, accept,
+send, recv, close; WebSocket denial response: connect, websocket.http.response.start 403, body chunk
+more_body=True, final chunk) gets a failure injected at *every* program point, crossed with the failure kind
+(raise / return early / raise CancelledError on asyncio / an exception group / a response start that send()
+refuses), the response framing (content-length / chunked or DATA frames) and the context: HTTP/1.1 keep-alive
+followed by a second request (later segment or pipelined) or *preceded* by one that was answered normally, two
+concurrent HTTP/2 streams (the sibling is healthy and gated so that it overlaps), WebSocket over both carriers,
+plus a second connection on the same worker (any time next to an HTTP/1 connection, afterwards next to an
+HTTP/2 one).  Explorer A places the remaining client bytes / sibling gate releases around the crash.
+
+Refused response starts: 'badstart' is refused by hypercorn's own header validation; the 'ref_*' kinds pass it and
+are refused by the protocol library with nothing written (h11: transfer-encoding it cannot frame, non-numeric
+content-length, status 1000; h2: a TE value, which H2Protocol swallows so that the application believes the
+response started; an empty header name, which both libraries refuse, h2 only after corrupting its stream state,
+and which hypercorn therefore has to refuse itself).  The exception reaches
+the application inside send() and is not caught there: nothing had been started, exactly one 500 is owed.
 
 Oracle
-  no-500                 nothing had been started, yet the client does not parse exactly one 500
+  no-500                 nothing had been started, yet the client does not parse exactly one complete 500 (HTTP/1: and
+                         nothing after a 500 that announced connection: close)
   falsely-complete       a response was started but not finished by the app, and the client parses it as complete
   not-terminated         ... and it is not promptly terminated: h1 connection still open at the quiescent point after
                          the crash (no timer may be needed), h2 stream neither reset nor (wrongly) ended
-  not-logged             application raised but the error log has no 'Error in ASGI Framework' exception record
-                         (or has more than one)
+                         (denial response between its start message and its first body message, whose head hypercorn
+                         has not written yet: a complete 500 is accepted as well as a truncated 403)
+  not-logged             application raised (its own exception or the one send() threw into it) but the error log has
+                         no 'Error in ASGI Framework' exception record (or has more than one)
   sibling-broken         healthy sibling stream / following request on a reusable connection / next connection
                          did not complete normally
   + no internal error (handler exception, loop exception handler)
@@ -29,17 +41,22 @@ from mc.harness import internal_errors, std_execute
 
 ID = "C05"
 LEVEL = "model_checking"
-TECHNIQUE = ("exhaustive crash-point x failure-kind x framing x context enumeration with stateless deviation-bounded "
+TECHNIQUE = ("exhaustive crash-point x failure-kind (raise / return / cancel / exception group / response start refused by "
+             "hypercorn or by the protocol library) x framing x context enumeration with stateless deviation-bounded "
              "exploration of the crash racing further client input, on the real task group / stream / protocol code")
-RULE = ("scenario = engine x context(h1 seq, h1 pipelined, h2 two streams, ws/h1, ws/h2) x framing x crash point x kind; "
-        "Explorer A within (M,S); non-trivial = instance ran and a non-default choice was taken or the crash point is "
-        "not the trivial 'after completion'; distinct by observation digest")
+RULE = ("scenario = engine x context(h1 seq, h1 pipelined, h1 second request of a keep-alive connection, h2 two streams, "
+        "h2 upload going on, h2 full application queue, ws session over h1 / h2, ws denial response over h1 / h2) x "
+        "framing x crash point x kind; Explorer A within (M,S); non-trivial = instance ran and a non-default choice was "
+        "taken or the crash point is not the trivial 'after completion'; distinct by observation digest")
 ASSUMPTIONS = [
     "HTTP/1.0 close-delimited bodies are excluded by the property (truncation is invisible by protocol design)",
     "for a WebSocket that was accepted, 'visibly incomplete' means a 1011 close frame or the connection being dropped",
 ]
-BOUNDS_DOC = {"quick": "M<=1, S<=2; trio additionally M=0, S<=1, R<=1 (batch / wake order)",
-              "thorough": "M<=2, S<=3, trio R<=1; trio additionally M=0, S<=2, R<=2"}
+BOUNDS_DOC = {"quick": "M<=1, S<=2; trio additionally M=0, S<=1, R<=1 (batch / wake order); programs of 4-6 steps, every "
+                       "crash point; refused starts at the start message only; the second connection opens at any "
+                       "moment next to an HTTP/1 connection, only after the failure and the other sources next to an "
+                       "HTTP/2 one",
+              "thorough": "M<=2, S<=3, trio R<=1; trio additionally M=0, S<=2, R<=2; same programs and contexts"}
 BUDGET = {"quick": 300, "thorough": 1800}
 
 HTTP_BASE = [
@@ -60,11 +77,41 @@ HEALTHY = [("recv_body",), ("gate", "gb"), ("send", {"type": "http.response.star
                                                      "headers": [(b"content-length", b"2")]}),
            ("send", {"type": "http.response.body", "body": b"ok", "more_body": False})]
 HEALTHY_NOGATE = [op for op in HEALTHY if op[0] != "gate"]
-KINDS = ["raise", "return", "cancel", "raise_group", "badstart"]
+# a WebSocket handshake answered with an HTTP response (ASGI websocket.http.response extension) in two body messages
+WSD_BASE = [
+    ("recv",),
+    ("send", "DENY_START"),
+    ("send", {"type": "websocket.http.response.body", "body": b"ab", "more_body": True}),
+    ("send", {"type": "websocket.http.response.body", "body": b"cd", "more_body": False}),
+]
+KINDS = ["raise", "return", "cancel", "raise_group", "badstart", "ref_te", "ref_cl", "ref_status", "ref_name", "ref_h2te"]
 BAD_START = {"type": "http.response.start", "status": 200, "headers": [(b"x-bad", b"a\r\nset-cookie: b")]}
+# response starts that pass hypercorn's own header validation but that the protocol library refuses to serialise; the
+# refusal happens before a single byte was written.  h11 (raises LocalProtocolError into the application's send()):
+# a transfer coding it cannot frame, a content-length that is not a number, a status that is not three digits.
+# h2 4.x refuses far less on the way out (connection-specific headers are silently dropped, a bad content-length /
+# status goes out as it is): a TE value other than trailers (ProtocolError, which H2Protocol.stream_send swallows:
+# the application is not told, kept as a response the application believes started).  ref_name, an empty header
+# name: h11 refuses it, h2 raised IndexError into the application *after* recording the headers as sent, which made
+# the 500 impossible and cost the client its whole connection; hypercorn's validation refuses it since 914af56 -
+# kept on one HTTP/1 and the HTTP/2 context as a name that has to be refused before it reaches either library
+REFUSED = {
+    "ref_te": {"status": 200, "headers": [(b"transfer-encoding", b"gzip")]},
+    "ref_cl": {"status": 200, "headers": [(b"content-length", b"5.0")]},
+    "ref_status": {"status": 1000, "headers": []},
+    "ref_name": {"status": 200, "headers": [(b"", b"x")]},
+    "ref_h2te": {"status": 200, "headers": [(b"te", b"gzip")]},
+}
 # h2up: the client keeps uploading to the failed stream; h2full: the failing application is gated until more unread
-# body messages than max_app_queue_size (10) are queued for it and the connection's reader waits for room
-CONTEXTS = ["h1_seq", "h1_pipe", "h2", "h2up", "h2full", "ws/h1", "ws/h2"]
+# body messages than max_app_queue_size (10) are queued for it and the connection's reader waits for room;
+# h1_2nd: the failing request is the second one of a keep-alive connection (the first was answered normally);
+# wsd/*: the WebSocket handshake is answered with a denial response (WSD_BASE) instead of being accepted
+CONTEXTS = ["h1_seq", "h1_pipe", "h1_2nd", "h2", "h2up", "h2full", "ws/h1", "ws/h2", "wsd/h1", "wsd/h2"]
+H2_FAMILY = ("h2", "h2up", "h2full", "ws/h2", "wsd/h2")
+
+
+def base_of(ctx: str) -> list:
+    return WSD_BASE if ctx.startswith("wsd") else WS_BASE if ctx.startswith("ws/") else HTTP_BASE
 
 
 def failing(base: list, k: int, kind: str, framing: str) -> list:
@@ -73,41 +120,71 @@ def failing(base: list, k: int, kind: str, framing: str) -> list:
         if op == ("send", "START"):
             hdrs = [(b"content-length", b"4")] if framing == "cl" else []
             op = ("send", {"type": "http.response.start", "status": 200, "headers": hdrs})
+        elif op == ("send", "DENY_START"):
+            hdrs = [(b"content-length", b"4")] if framing == "cl" else []
+            if kind in REFUSED:  # accepted here (the head travels with the first body message), refused there
+                hdrs = list(REFUSED[kind]["headers"])
+            op = ("send", {"type": "websocket.http.response.start", "status": 403, "headers": hdrs})
         prog.append(op)
     if k < len(base):
         if kind == "badstart":
             # the failure *is* the response start: an invalid header makes send() raise into an application
             # that does not catch it
             prog.append(("send_strict", BAD_START))
+        elif kind in REFUSED and base is WSD_BASE:
+            prog.append(("send_strict", base[k][1]))
+        elif kind in REFUSED:
+            prog.append(("send_strict", {"type": "http.response.start", **REFUSED[kind]}))
         else:
             prog.append((kind,))
     return prog
+
+
+def _wanted(engine: str, ctx: str, framing: str, k: int, kind: str, nbase: int) -> bool:
+    if kind == "cancel" and engine == "trio":
+        return False  # raising trio.Cancelled by hand is not something an application can do
+    if k == nbase and kind != "raise":
+        return False
+    if kind in REFUSED:
+        # the message that is refused is the response start (k == 2; for a denial response the first body message,
+        # which carries the head: k == 2 as well); the framing dimension does not apply
+        if k != 2 or framing == "chunked":
+            return False
+        if kind == "ref_h2te":
+            return ctx == "h2"
+        if kind == "ref_name":
+            return ctx in ("h1_seq", "h2")
+        return ctx in ("h1_seq", "h1_pipe", "h1_2nd") or (kind == "ref_te" and ctx == "wsd/h1")
+    if kind == "badstart":
+        return k == 2 and ctx in ("h1_seq", "h1_pipe", "h1_2nd", "h2")
+    if ctx == "h1_2nd":  # the history dimension only: crash before reading / mid-body
+        return kind in ("raise", "return") and k in (0, 3)
+    if ctx.startswith("wsd"):
+        return kind in ("raise", "return")
+    if ctx == "h2up" and (kind != "raise" or k not in (0, 1) or framing != "cl"):
+        return False
+    if ctx == "h2full" and (kind not in ("raise", "return") or k not in (0, 1, 3) or framing != "cl"):
+        return False
+    if kind == "raise_group" and k not in (0, 2, 3):
+        return False
+    return True
 
 
 def scenarios(tier: str) -> List[Any]:
     out = []
     for engine in ("asyncio", "trio"):
         for ctx in CONTEXTS:
-            base = WS_BASE if ctx.startswith("ws") else HTTP_BASE
-            for framing in (("cl", "chunked") if not ctx.startswith("ws") else ("-",)):
+            base = base_of(ctx)
+            for framing in (("cl", "chunked") if not ctx.startswith("ws/") else ("-",)):
                 for k in range(len(base) + 1):
                     for kind in KINDS:
-                        if kind == "cancel" and engine == "trio":
-                            continue  # raising trio.Cancelled by hand is not something an application can do
-                        if k == len(base) and kind != "raise":
+                        if not _wanted(engine, ctx, framing, k, kind, len(base)):
                             continue
-                        if kind == "badstart" and (ctx.startswith("ws") or k != 2):
-                            continue
-                        if ctx == "h2up" and (kind != "raise" or k not in (0, 1) or framing != "cl"):
-                            continue
-                        if ctx == "h2full" and (kind not in ("raise", "return") or k not in (0, 1, 3) or framing != "cl"):
-                            continue
-                        if kind == "raise_group" and k not in (0, 2, 3):
-                            continue
-                        out.append((engine, ctx, framing, k, kind))
+                        fr = "-" if kind in REFUSED else framing
+                        out.append((engine, ctx, fr, k, kind))
                         if engine == "trio" and ctx != "h2full":
                             # trio's own scheduling freedom (batch order / wake order), environment at quiescence
-                            out.append((engine, ctx, framing, k, kind, "rev"))
+                            out.append((engine, ctx, fr, k, kind, "rev"))
     return out
 
 
@@ -121,24 +198,44 @@ def bounds(tier: str, params: Any) -> dict:
     return {"M": 2, "S": 3, "R": 1 if params[0] == "trio" else 0}
 
 
+def _later(w: Any, ev: tuple) -> bool:
+    """Guard of the 'later connection' next to a multiplexed one: the failing application instance is over and the
+    client / gate sources have nothing left that could fire now."""
+    if not any(i.scope.get("path") == "/a" and i.outcome != "running" for i in w.instances):
+        return False
+    d = w.driver
+    return not any(name != "other" and d.pos[i] < len(evs) and w.enabled(evs[d.pos[i]])
+                   for i, (name, evs) in enumerate(d.sources))
+
+
 def build(params: Any) -> tuple:
     engine, ctx, framing, k, kind = params[:5]
     other = [("connect", 1, {"carrier": "h1", "methods": [b"GET"]}), ("data", 1, h1_request(b"GET", b"/c"))]
+    if ctx in H2_FAMILY:
+        # next to one HTTP/1 connection (everything sequential) the other connection may come and go at any moment;
+        # next to a multiplexed one (sibling stream, gate, more client frames) it is a *later* connection: placing
+        # its two events freely among those multiplied the executions by 30 for no new observation
+        other = [("later",)] + other
+    prog = failing(base_of(ctx), k, kind, framing)
     if ctx.startswith("h1"):
         a = h1_request(b"POST", b"/a", body=b"xy")
         b = h1_request(b"GET", b"/b")
-        client = [("data", 0, a[:30]), ("data", 0, a[30:] + (b if ctx == "h1_pipe" else b""))]
-        if ctx == "h1_seq":
-            client.append(("data", 0, b))
-        conn = {"carrier": "h1", "methods": [b"POST", b"GET"]}
-        apps = {"http:/a": failing(HTTP_BASE, k, kind, framing), "http:/b": HEALTHY_NOGATE, "http:/c": HEALTHY_NOGATE}
+        if ctx == "h1_2nd":
+            client = [("data", 0, b), ("data", 0, a[:30]), ("data", 0, a[30:])]
+            conn = {"carrier": "h1", "methods": [b"GET", b"POST"]}
+        else:
+            client = [("data", 0, a[:30]), ("data", 0, a[30:] + (b if ctx == "h1_pipe" else b""))]
+            if ctx == "h1_seq":
+                client.append(("data", 0, b))
+            conn = {"carrier": "h1", "methods": [b"POST", b"GET"]}
+        apps = {"http:/a": prog, "http:/b": HEALTHY_NOGATE, "http:/c": HEALTHY_NOGATE}
         app_src: list = []
     elif ctx == "h2":
         client = [("cmd", 0, "preface"), ("cmd", 0, "headers", 1, h2_request_headers(b"POST", b"/a"), False),
                   ("cmd", 0, "headers", 3, h2_request_headers(b"GET", b"/b"), True),
                   ("cmd", 0, "datan", 1, b"xy", True)]
         conn = {"carrier": "h2", "tls": True, "alpn": "h2"}
-        apps = {"http:/a": failing(HTTP_BASE, k, kind, framing), "http:/b": HEALTHY, "http:/c": HEALTHY_NOGATE}
+        apps = {"http:/a": prog, "http:/b": HEALTHY, "http:/c": HEALTHY_NOGATE}
         app_src = [("release", "gb")]
     elif ctx == "h2up":
         # stream 1's application fails without reading its body; the client goes on uploading 80 kB to it (more than
@@ -148,7 +245,7 @@ def build(params: Any) -> tuple:
         client += [("cmd", 0, "headers", 3, h2_request_headers(b"POST", b"/b"), False),
                    ("cmd", 0, "datan", 3, b"v" * 10000, False), ("cmd", 0, "datan", 3, b"v" * 10000, True)]
         conn = {"carrier": "h2", "tls": True, "alpn": "h2"}
-        apps = {"http:/a": failing(HTTP_BASE, k, kind, framing), "http:/b": HEALTHY_NOGATE, "http:/c": HEALTHY_NOGATE}
+        apps = {"http:/a": prog, "http:/b": HEALTHY_NOGATE, "http:/c": HEALTHY_NOGATE}
         app_src = []
     elif ctx == "h2full":
         client = [("cmd", 0, "preface"), ("cmd", 0, "headers", 1, h2_request_headers(b"POST", b"/a"), False)]
@@ -156,26 +253,33 @@ def build(params: Any) -> tuple:
         client += [("cmd", 0, "headers", 3, h2_request_headers(b"POST", b"/b"), False),
                    ("cmd", 0, "datan", 3, b"v" * 100, False), ("cmd", 0, "datan", 3, b"v" * 100, True)]
         conn = {"carrier": "h2", "tls": True, "alpn": "h2"}
-        apps = {"http:/a": [("gate", "ga")] + failing(HTTP_BASE, k, kind, framing), "http:/b": HEALTHY_NOGATE,
-                "http:/c": HEALTHY_NOGATE}
+        apps = {"http:/a": [("gate", "ga")] + prog, "http:/b": HEALTHY_NOGATE, "http:/c": HEALTHY_NOGATE}
         app_src = [("release", "ga")]
-    elif ctx == "ws/h1":
-        client = [("data", 0, ws_h1_handshake(b"/a")), ("wait_status", 0), ("data", 0, ws_frame(OP_TEXT, b"yo"))]
+    elif ctx in ("ws/h1", "wsd/h1"):
+        client = [("data", 0, ws_h1_handshake(b"/a"))]
+        if ctx == "ws/h1":
+            client += [("wait_status", 0), ("data", 0, ws_frame(OP_TEXT, b"yo"))]
         conn = {"carrier": "ws/h1"}
-        apps = {"websocket": failing(WS_BASE, k, kind, framing), "http:/c": HEALTHY_NOGATE}
+        apps = {"websocket": prog, "http:/c": HEALTHY_NOGATE}
         app_src = []
     else:
         client = [("cmd", 0, "preface"), ("cmd", 0, "ws_open", 1), ("cmd", 0, "headers", 1, ws_h2_headers(b"/a"), False),
-                  ("cmd", 0, "headers", 3, h2_request_headers(b"GET", b"/b"), True), ("wait_status", 0, 1),
-                  ("cmd", 0, "ws_data", 1, ws_frame(OP_TEXT, b"yo"))]
+                  ("cmd", 0, "headers", 3, h2_request_headers(b"GET", b"/b"), True)]
+        if ctx == "ws/h2":
+            client += [("wait_status", 0, 1), ("cmd", 0, "ws_data", 1, ws_frame(OP_TEXT, b"yo"))]
         conn = {"carrier": "ws/h2", "tls": True, "alpn": "h2"}
-        apps = {"websocket": failing(WS_BASE, k, kind, framing), "http:/b": HEALTHY, "http:/c": HEALTHY_NOGATE}
+        apps = {"websocket": prog, "http:/b": HEALTHY, "http:/c": HEALTHY_NOGATE}
         app_src = [("release", "gb")]
     # ('wait_status', ...) is a guard: a conforming client only sends frames after it has seen the handshake answer
+    # (and none at all once the handshake was denied)
     sources = [("client", client), ("app", app_src), ("other", other)]
     sc = {"level": "conn", "conns": {0: conn}, "client_factory": make_client, "apps": apps,
-          "config": {"keep_alive_timeout": 5}, "sources": sources, "trio_rev": True}
+          "config": {"keep_alive_timeout": 5}, "sources": sources, "trio_rev": True, "guards": {"later": _later}}
     return engine, sc
+
+
+_START_TYPES = ("http.response.start", "websocket.accept", "websocket.http.response.start")
+_BODY_TYPES = ("http.response.body", "websocket.http.response.body")
 
 
 def oracle(w: Any, params: Any) -> List[dict]:
@@ -184,16 +288,18 @@ def oracle(w: Any, params: Any) -> List[dict]:
     rec = w.conns[0]
     cl = rec.client
     tag = f"{ctx}:{framing}:k{k}:{kind}"
-    is_ws = ctx.startswith("ws")
-    base = WS_BASE if is_ws else HTTP_BASE
+    is_ws = ctx.startswith("ws/")  # an accepted WebSocket session; a denied one (wsd/*) is an HTTP response
+    is_wsd = ctx.startswith("wsd")
+    base = base_of(ctx)
+    idx = 1 if ctx == "h1_2nd" else 0  # position of the failing exchange on its HTTP/1 connection
     inst_a = next((i for i in w.instances if i.scope.get("path") == "/a"), None)
     if inst_a is None:
         return internal_errors(w)
     crashed = (inst_a.outcome in ("raised:AppCrash", "returned", "cancelled") or (inst_a.outcome or "").startswith("raised:")) and k < len(base)
     # what the app managed to send before failing
     sent = [s for s in inst_a.sends if s[3] == "ok"]
-    started = any(s[2]["type"] in ("http.response.start", "websocket.accept") for s in sent)
-    finished = any((s[2]["type"] == "http.response.body" and not s[2].get("more_body", False)) or
+    started = any(s[2]["type"] in _START_TYPES for s in sent)
+    finished = any((s[2]["type"] in _BODY_TYPES and not s[2].get("more_body", False)) or
                    s[2]["type"] == "websocket.close" for s in sent)
     lost = rec.client_eof or rec.client_reset or rec.lost_at is not None
     # --- the failing exchange as the client sees it
@@ -203,21 +309,29 @@ def oracle(w: Any, params: Any) -> List[dict]:
             view = None if st is None else {"status": st["status"], "complete": bool(st["ended"]), "reset": st["reset"],
                                             "body": st["body"]}
         else:
-            r = cl.h1.responses[0] if cl.h1.responses else None
+            r = cl.h1.responses[idx] if len(cl.h1.responses) > idx else None
             view = None if r is None else {"status": r["status"], "complete": r["complete"], "reset": None, "body": r["body"]}
         if crashed and inst_a.outcome != "running" and not lost:
             if not started:
                 if view is None or view["status"] != 500 or not view["complete"]:
                     out.append(V("no-500", tag, f"client saw {view}"))
+                elif cl.h2 is None and r["must_close"] and len(cl.h1.responses) > idx + 1:
+                    # exactly one: the 500 announced the end of the connection, nothing may follow it
+                    out.append(V("no-500", f"{tag}:more-than-one", f"responses after a closing 500: "
+                                                                  f"{[(x['status'], x['complete']) for x in cl.h1.responses]}"))
             elif not finished:
                 # with content-length framing a response whose declared bytes were all written is complete on
                 # the wire whatever happens next: nothing can be demanded then
-                body_sent = sum(len(s[2].get("body", b"")) for s in sent if s[2]["type"] == "http.response.body")
+                body_sent = sum(len(s[2].get("body", b"")) for s in sent if s[2]["type"] in _BODY_TYPES)
                 all_declared = framing == "cl" and body_sent >= 4
                 if all_declared:
                     out.extend(internal_errors(w))
                     return out
-                if view is not None and view["complete"] and view["reset"] is None:
+                # a denial response's head travels with its first body message: between the two the application has
+                # started a response of which nothing is owed on the wire yet, a (complete) 500 is as truthful as a
+                # truncated 403
+                unsent_500 = is_wsd and body_sent == 0 and view is not None and view["status"] == 500
+                if view is not None and view["complete"] and view["reset"] is None and not unsent_500:
                     out.append(V("falsely-complete", tag, f"client parsed a complete response: {view}"))
                 if cl.h2 is not None:
                     if view is None or (view["reset"] is None and not view["complete"]) and rec.closed_at is None:
@@ -250,7 +364,7 @@ def oracle(w: Any, params: Any) -> List[dict]:
                 if code is None and not dropped:
                     out.append(V("not-terminated", f"{ctx}:{kind}:ws-left-open", f"{tag}: no close frame, stream/connection still open"))
     # --- logging
-    if kind in ("raise", "raise_group") and inst_a.outcome == "raised:AppCrash" and k < len(base):
+    if (inst_a.outcome or "").startswith("raised:") and k < len(base):
         n = sum(1 for l in w.logrec if l[1] == "exception" and l[2] == "Error in ASGI Framework")
         if n != 1:
             out.append(V("not-logged", f"{ctx}:{n}", f"{tag}: {n} exception records: {w.logrec}"))
@@ -265,7 +379,7 @@ def oracle(w: Any, params: Any) -> List[dict]:
                                                                       f"(no flow-control credit returned): next {left[0][:4]}"))
         elif st3 is None or not st3["ended"] or st3["body"] != b"ok":
             out.append(V("sibling-broken", f"{ctx}:stream3", f"{tag}: sibling upload not answered: {st3}"))
-    if ctx in ("h2", "ws/h2") and inst_b is not None and not lost:
+    if ctx in ("h2", "ws/h2", "wsd/h2") and inst_b is not None and not lost:
         released = ("release", "gb") in fired
         st3 = cl.h2.streams.get(3)
         if released and rec.closed_at is None and (st3 is None or not st3["ended"] or st3["body"] != b"ok" or st3["status"] != 200):
